@@ -27,6 +27,14 @@ def gen_case(rng, cid, rounds):
     c = gen_world_case(rng, cid, PREFIX)
     nn = len(c["nodes"])
     ops = list(c["ops"])
+    # a backlog larger than one packet, with entries of mixed sizes (so that the cut falls between a large and a
+    # small entry): the convergence phase then has to move it in several partial deltas
+    for n in range(nn):
+        if rng.random() < 0.8:
+            for _ in range(rng.randint(3, 9)):
+                ops.append({"op": "upsert", "n": n, "k": H("b%d" % rng.randrange(12)), "v": H("x" * rng.choice([0, 1, 5, 20, 45, 60]))})
+            if rng.random() < 0.3:
+                ops.append({"op": "delete", "n": n, "k": H("b%d" % rng.randrange(12))})
     # earlier packets are lost
     ops += [{"op": "drop", "i": 0} for _ in range(60)]
     # everybody gets to know everybody (connected knowledge graph): one join per node to node 0
@@ -38,7 +46,7 @@ def gen_case(rng, cid, rounds):
         pairs = [(a, b) for a in range(nn) for b in range(nn) if a != b]
         rng.shuffle(pairs)
         for a, b in pairs:
-            ops += exchange(a, b, rng.choice([300, 350, 420, 600, 1400]))
+            ops += exchange(a, b, rng.choice([215, 230, 260, 300, 350, 420, 600, 1400]))
         marks.append(len(ops))
     return dict(c, ops=ops, phase_start=start, round_ends=marks)
 
@@ -162,10 +170,23 @@ def run(ctx):
         violations.append({"what": "model/implementation disagreement (%s) at step %d of history %s; convergence still observed"
                                    % (",".join(d["names"]), d["step"], okc[d["case"]][0]["id"]), "found_input": False,
                            "replay_obj": {"broken": "corr:C03:gossip_h:world", "disagreement": d, "case": okc[d["case"]][0]}})
+    from props import wire
+    ncut = nfull = 0
+    for c, o in okc:
+        for ob in (o.get("obs") or [])[c["phase_start"]:]:
+            for pkt in ob["sent"]:
+                try:
+                    kind, hdr, body = wire.decode_packet(bytes.fromhex(pkt["bytes"]))
+                    if kind == "delta" and body:
+                        if any(len(es) < h[b"entries"] for h, es in body): ncut += 1
+                        else: nfull += 1
+                except Exception:
+                    pass
     cov = {"evaluations": len(cases), "distinct_nontrivial": len({json.dumps(c["ops"][:c["phase_start"]]) for c in cases}),
-           "rule": "random lossy prefix (writes, deletes, compactions, leave, partial exchanges, all pending packets dropped) on 2-4 real nodes, then %d rounds of loss-free all-pairs exchanges with max packet size in {300..1400}; non-trivial/distinct by prefix; corpus = G1 oversize witness" % rounds,
+           "rule": "random lossy prefix (writes, deletes, compactions, leave, partial exchanges, all pending packets dropped) on 2-4 real nodes, then %d rounds of loss-free all-pairs exchanges with max packet size in {215..1400} (every entry fits, most deltas do not); non-trivial/distinct by prefix; corpus = G1 oversize witness" % rounds,
            "samples": [cases[1]["ops"][:cases[1]["phase_start"]][:12]],
            "correspondence": {"harness": "gossip_h world mode", "histories": len(okc), "ops": sum(len(c["ops"]) for c in cases), "distribution": op_mix(cases),
+                              "convergence_phase_deltas_cut_by_packet_size": ncut, "convergence_phase_deltas_complete": nfull,
                               "disagreements": len(dis), "seed": ctx["seed"]},
            "monitor": {"histories": len(cases), "failures": len(mon), "failures_known": len([1 for _, f in mon if f["sig"] in kf])}}
     return {"coverage": cov, "violations": violations, "known": known}
